@@ -32,8 +32,13 @@ def run(ctx, res):
 
 
 def replay(ctx, res, v):
-    relobs.replay_rel(ctx, res, v, RULES)
+    if v.get("rule") == "find.mismatch":
+        findobs.replay_find(ctx, res, v)
+    else:
+        relobs.replay_rel(ctx, res, v, RULES)
 
 
 def attribute(ctx, viols, gate):
-    return relobs.attribute_rel(ctx, viols, gate, RULES)
+    rel = [v for v in viols if str(v.get("rule", "")).startswith("rel.")]
+    fnd = [v for v in viols if v.get("rule") == "find.mismatch"]
+    return (relobs.attribute_rel(ctx, rel, gate, RULES) if rel else []) + (findobs.attribute_find(ctx, fnd, gate) if fnd else [])
